@@ -45,7 +45,13 @@ pub enum Op {
     SetTimestamp(u32, u16),
     Delegate { keys: Vec<u8>, threshold: u8, paths: PathsGen, version: u32 },
     /// sign the role being edited with its keys (all / one missing) and start editing another role
-    Switch { role: u16, drop_key: bool },
+    Switch {
+        role: u16,
+        drop_key: bool,
+        /// hand the editor the first key twice instead of the last key
+        #[serde(default)]
+        dup_key: bool,
+    },
 }
 
 #[derive(Clone, Debug, Serialize, Deserialize, PartialEq, Eq)]
@@ -315,12 +321,17 @@ pub fn run_program(p: &Program) -> Result<Option<Built>, String> {
                         Err(e) => errors.push(format!("delegate_role({name}): {e}")),
                     }
                 }
-                Op::Switch { role, drop_key } => {
+                Op::Switch { role, drop_key, dup_key } => {
                     // sign the pending role with its keys
                     let cur = model.roles.get(&pending.name).cloned().unwrap_or_default();
                     let mut ks = cur.keys.clone();
                     if *drop_key && ks.len() > 1 {
                         ks.pop();
+                    }
+                    if *dup_key && ks.len() > 1 {
+                        ks.pop();
+                        ks.push(ks[0]);
+                        labels.push("key-given-twice".into());
                     }
                     match ed.sign_targets_editor(&key_sources(&ks)).await {
                         Ok(_) => {
@@ -441,7 +452,7 @@ pub fn op() -> impl Strategy<Value = Op> {
         1 => ((1u32..5000), any::<u16>()).prop_map(|(v, d)| Op::SetTimestamp(v, d)),
         4 => (prop::collection::vec(0u8..9, 1..=3), prop_oneof![4 => Just(1u8), 2 => Just(2u8), 1 => Just(3u8)], paths_gen(), 1u32..50)
             .prop_map(|(keys, threshold, paths, version)| Op::Delegate { keys, threshold, paths, version }),
-        5 => (any::<u16>(), prop::bool::weighted(0.1)).prop_map(|(role, drop_key)| Op::Switch { role, drop_key }),
+        5 => (any::<u16>(), prop::bool::weighted(0.1), prop::bool::weighted(0.15)).prop_map(|(role, drop_key, dup_key)| Op::Switch { role, drop_key, dup_key }),
     ]
 }
 
